@@ -309,7 +309,8 @@ static AVOID_UNICODE: std::sync::atomic::AtomicBool = std::sync::atomic::AtomicB
 
 fn run(ctx: &RunCtx) {
     AVOID_UNICODE.store(ctx.avoid("unicode-escape-not-lua51"), std::sync::atomic::Ordering::Relaxed);
-    let corp = corpus();
+    static CORPUS: std::sync::OnceLock<Vec<String>> = std::sync::OnceLock::new();
+    let corp = CORPUS.get_or_init(corpus);
     ctx.add_class("corpus_trees", corp.len() as u64);
     let spans: Vec<usize> = match ctx.tier {
         Tier::Quick => QUICK_SPANS.to_vec(),
